@@ -26,6 +26,7 @@ type genKnobs struct {
 	pZeroFields float64
 	pInvalid    float64 // field value = invalid
 	noTimeNoise bool    // keep timestamps plausible (reference always pinned)
+	pTimeBack   float64 // timestamps step backwards (still plausible): later messages are not always newer
 }
 
 func defaultKnobs() genKnobs {
@@ -153,7 +154,11 @@ func (g *generator) timeValue(local bool) uint32 {
 			return 0xFFFFFF00 + uint32(g.rng.Intn(255))
 		}
 	}
-	g.now += uint32(g.rng.Intn(40))
+	if g.k.pTimeBack > 0 && g.rng.Float64() < g.k.pTimeBack {
+		g.now -= uint32(g.rng.Intn(5000))
+	} else {
+		g.now += uint32(g.rng.Intn(40))
+	}
 	if local {
 		return g.now + uint32(g.rng.Intn(2*86400)) - 86400
 	}
